@@ -303,6 +303,19 @@ func (c *CreateTable) Children() []Node {
 	if c.Comment != nil {
 		nodes = append(nodes, c.Comment)
 	}
+	if c.OnCluster != nil {
+		nodes = append(nodes, c.OnCluster)
+	}
+	if c.ClusterBy != nil {
+		for i := range c.ClusterBy.Items {
+			for j := range c.ClusterBy.Items[i] {
+				nodes = append(nodes, &c.ClusterBy.Items[i][j])
+			}
+		}
+	}
+	if c.AggregationPolicy != nil {
+		nodes = append(nodes, c.AggregationPolicy)
+	}
 	if c.ClusteredBy != nil {
 		nodes = append(nodes, c.ClusteredBy)
 	}
